@@ -7,6 +7,7 @@ import (
 	"sync"
 
 	"github.com/arr-ai/frozen"
+	"github.com/arr-ai/hash"
 	"github.com/arr-ai/wbnf/parser"
 
 	"github.com/arr-ai/arrai/pkg/fu"
@@ -76,11 +77,19 @@ func NewBool(b bool) Set {
 
 // Hash computes a hash for a genericSet.
 func (s GenericSet) Hash(seed uintptr) uintptr {
-	h := seed
+	var h uintptr
 	for e := s.Enumerator(); e.MoveNext(); {
 		h ^= e.Current().Hash(0)
 	}
-	return h
+	return finishHash(h, seed)
+}
+
+// finishHash finalises a hash accumulated by XORing the hashes of the parts of
+// a composite value. frozen identifies the elements of a set by their full
+// hash, so the hash of a composite must not be linear in the hashes of its
+// parts: otherwise {{1, 2}, {3}} and {{1, 3}, {2}} hash alike and compare equal.
+func finishHash(h, seed uintptr) uintptr {
+	return hash.Uintptr(h, seed)
 }
 
 // Equal tests two Sets for equality. Any other type returns false.
